@@ -30,8 +30,25 @@ Fixpoint entries_of (l : list val) : option (list PatSpec.entry) :=
 Definition tail_err (t : Z) : N :=
   if (t =? 0)%Z then E.EOF else if (t =? 1)%Z then E.UnexpectedEOF else E.Other.
 
+(* ---- the Spec-side oracle: what `pat.new` / `pat.read` / `pat.ispmt` must answer on a carrier of the logical
+        entry list, computed by Spec/PatSpec.v alone (no model function; the map is printed as spec_map gives it,
+        without re-sorting) ---- *)
+Definition spec_vmap (m : list (N * N)) : val := VL (map (fun kv => VL [vn (fst kv); vn (snd kv)]) m).
+Definition spec_view (es : list PatSpec.entry) : val :=
+  VL [VI 0%Z; VL [VL [VI 0%Z; vn (PatSpec.spec_num es)]; VL [VI 0%Z; spec_vmap (PatSpec.spec_map es)];
+                  match PatSpec.spts es with Some x => VL [VI 0%Z; vn x] | None => VL [VI 1%Z; vn E.Other] end;
+                  VI 1%Z]].
+
 Open Scope string_scope.
 Definition ops : list op := [
+  ("spec.pat", fun a => match a with
+     | [VL es] => match entries_of es with Some e => spec_view e | None => vbad end
+     | _ => vbad end);
+  ("spec.pat.ispmt", fun a => match a with
+     | [VL es; VI x] => match entries_of es with
+                        | Some e => VL [VI 0%Z; vbool (PatSpec.spec_is_pmt e (zN x))]
+                        | None => vbad end
+     | _ => vbad end);
   ("pat.new", fun a => match a with [VB b] => vres pat_view (Pat.new_pat b) | _ => vbad end);
   (* packets, how the stream ends (0 clean EOF, 1 partial packet, 2 reader error), read fragment size (harness only) *)
   ("pat.read", fun a => match a with
